@@ -38,6 +38,7 @@ IR_RUNS.update({
                          ("MC", "hier_edit", 10, 400), ("MC", "hier_walk", 16, 1500)]},
     "C07": {"quick": [("MC", "clone", 2), ("MC", "clone_edit", 0)],
             "thorough": [("MC", "clone", 5), ("MC", "clone", 10, 60), ("MC", "clone_edit", 1)]},
+    "C17": {"quick": [("MC", "edif_names", 0)], "thorough": [("MC", "edif_names", 0)]},
     "C05": {"quick": [("MC", "edif_read", 2), ("MC", "edif_read1", 1), ("MC", "edif_read", 10, 8)],
             "thorough": [("MC", "edif_read", 3), ("MC", "edif_read1", 3), ("MC", "edif_read", 12, 200)]},
     "C03": {"quick": [("MC", "edif_rt", 3), ("MC", "edif_rt2", 2), ("MC", "edif_rt", 10, 40)],
@@ -52,6 +53,11 @@ IR_RUNS.update({
             "thorough": [("MC", "hier12", 5), ("MC", "hier12", 14, 1000)]},
 })
 IR_RULE = {
+    "C17": "two siblings of every naming scope (libraries, cells, ports, nets, instances) receive every ordered pair of "
+           "distinct names from an adversarial pool (case variants, -, _, brackets, slashes, backslash, space, $, &, leading "
+           "digit, existing _sdn_N_ suffixes, lengths 254/255/256/257/300 with collisions after truncation); the netlist is "
+           "exported by the real writer and re-imported by the real reader; distinct_nontrivial counts distinct (scope, "
+           "name pair) cases",
     "C05": "abstract designs = reachable states of the fully named build scope (three libraries with cross-library "
            "references, bus port, bus nets with base indices, properties, any declaration order); each is rendered by the "
            "independent writer conform/edif_text.py under all 48 combinations of render options (rename constructs, "
@@ -169,6 +175,22 @@ def _c13_detail(sig, rec):
 
 
 def _detail(sig, clause, rec, header):
+    if clause.startswith("C17"):
+        hist = header.get("h_all", [])
+        names = [c.get("val", "") for c in hist if c.get("op") == "set_name"][-2:]
+        kind = next((c.get("kind") for c in reversed(hist) if c.get("op") == "set_name"), "")
+        sig["kind"] = kind
+        cause = "other"
+        if kind == "C":
+            longs = [n for n in names if n.startswith("@") and int(n[1:].split(":")[0]) >= 253]
+            if not rec.get("reader_accepts", True) and longs:
+                cause = "long-bus-cable-name: identifier plus _<bit>_ suffix exceeds the EDIF length limit"
+            elif rec.get("reader_accepts", True) and any(n[:1] in "$&_" for n in names):
+                cause = "bus cable whose identifier is &-escaped comes back as single-bit cables"
+            elif rec.get("reader_accepts", True) and any(n.endswith("]") and "[" in n for n in names):
+                cause = "scalar cable named like a bus bit comes back as a bit of an array cable"
+        sig["cause"] = cause
+        return sig
     if clause.startswith("C20"):
         sig["raised"] = rec.get("raised", "")
         sig["copy_made_by"] = "clone" if any(c.get("op") == "clone" for c in header.get("h_all", [])) else "second build"
@@ -286,4 +308,4 @@ def ir_history(pid, tier, seed, replay=None, runs=None, strict=True):
 
 
 HANDLERS = {"C01": ir_history, "C02": ir_history, "C14": ir_history, "C10": ir_history, "C19": ir_history, "C11": ir_history,
-            "C12": ir_history, "C08": ir_history, "C09": ir_history, "C07": ir_history, "C13": ir_history, "C20": ir_history, "C05": ir_history, "C03": ir_history}
+            "C12": ir_history, "C08": ir_history, "C09": ir_history, "C07": ir_history, "C13": ir_history, "C20": ir_history, "C05": ir_history, "C03": ir_history, "C17": ir_history}
